@@ -23,7 +23,7 @@ func init() {
 			"(R2) debug twins: for every function that exists in both the debug and the non-debug build with different bodies, deleting from the debug body the call statements whose callee exists only in the debug build yields the non-debug body; " +
 			"(R3) every function that exists only in the debug build (and every debug body whose non-debug twin is empty) is pure: no store to non-local memory, no call with such an effect, every path ends in return or panic; " +
 			"(R4) the two mask implementations have the same method set (names and signatures modulo the receiver), the two tag files define the same symbols, and no other file names a concrete mask type except through the alias (frozen exception: the lock uses the 64-bit mask in every configuration); " +
-			"(R5) a missing component column is never silently absorbed: comparisons of a column pointer with nil occur only in the functions whose documented contract is to report absence (stated on paths: on the nil outcome nothing with an effect happens before absence is reported, a panic, or the next loop element); (R6) the assertions that exist only in the debug build test and panic themselves and call nothing that has a panic of its own (an alive or lock check inside a helper would make the debug build reject calls the release build accepts). " +
+			"(R5) a missing component column is never silently absorbed: comparisons of a column pointer with nil occur only in the functions whose documented contract is to report absence (stated on paths: on the nil outcome nothing with an effect happens before absence is reported, a panic, or the next loop element); (R6) the assertions that exist only in the debug build test and panic themselves and call nothing that has a panic of its own, no liveness test and no lock test (an alive or lock check would make the debug build reject calls the release build accepts). " +
 			"Not decided: that the two mask implementations compute the same function for ids < 64; that the non-debug build panics on exactly the calls on which a debug assertion fires.",
 		TrustedBase: []string{"go/packages loading with build tags", "go/types object and signature printing", "go/printer for structural AST comparison"},
 		Rules: []Rule{
@@ -98,8 +98,25 @@ func c20r6(c *core.Ctx) {
 			})
 		}
 		visit(f, 0, "")
+		// nor does it test what the release build's unchecked paths do not test: liveness of the handle, the world lock
 		if bad == "" {
-			c.OK("C20/R6", subject, c.At(f.Pos()), "tests and panics itself; calls nothing with a panic of its own")
+			a := GetAnchors(c)
+			core.InspectNoLits(f.Body, func(n ast.Node) bool {
+				if call, ok := n.(*ast.CallExpr); ok && bad == "" {
+					if k, cal, _ := m.Callee(call); k == core.CallStatic && cal != nil {
+						switch {
+						case a.AliveTest[cal]:
+							bad = cal.Name + ", the liveness test"
+						case a.LockTests[cal]:
+							bad = cal.Name + ", the lock test"
+						}
+					}
+				}
+				return true
+			})
+		}
+		if bad == "" {
+			c.OK("C20/R6", subject, c.At(f.Pos()), "tests and panics itself; calls nothing with a panic of its own, no liveness test and no lock test")
 		} else {
 			c.Violation("C20/R6", subject, c.At(f.Pos()), fmt.Sprintf("%s exists only in the debug build and calls %s; the debug build would panic under a condition the release build does not test, so the tag changes more than messages", f.Name, bad))
 		}
